@@ -402,7 +402,7 @@ func TestCheck(t *testing.T) {
 	thorT := append(append([]string{}, quickT...), "empty", "vote2+transfer", "policy-fee+tx", "caught-callee", "unregister1", "deploy-uc", "notary-deposit")
 	names := vk.Pick(r, quickT, thorT)
 	depth := 2
-	if os.Getenv("C02_PAGES") != "" {
+	if os.Getenv("C02_PAGES") != "" || (os.Getenv("C02_RESETBATCH") != "" && os.Getenv("VERIF_TIER") != "thorough") {
 		depth = 1
 	}
 	type plan struct {
@@ -430,10 +430,20 @@ func TestCheck(t *testing.T) {
 		if r.Thorough() {
 			fams = chainx.Families()
 		}
+		prunePages := func(c *config.Blockchain) {
+			c.Ledger.RemoveUntraceableBlocks = true
+			c.Ledger.GarbageCollectionPeriod = 1
+		}
 		for _, f := range fams {
 			pad := vk.Pick(r, 10, 14)
 			e := mkEnv(f, pad, nil, false)
 			plans = append(plans, plan{e, "pages"})
+			if !f.SRIH || r.Thorough() {
+				// a pruning node: only with small pages old blocks, transactions and header-hash pages are
+				// really deleted by the GC (it never deletes inside the current page)
+				g := mkEnv(f, pad+8, prunePages, true)
+				plans = append(plans, plan{g, "pages"})
+			}
 		}
 		fams = nil
 	}
@@ -445,12 +455,20 @@ func TestCheck(t *testing.T) {
 		if !r.Thorough() && f.Name == "multi-srih" {
 			continue
 		}
+		if os.Getenv("C02_RESETBATCH") != "" && !r.Thorough() && f.Name != "single" {
+			// part "resetbatch" (overlay resetbatch2: the reset's intermediate persist batches scaled from
+			// 200000 blocks/items to 2): reset plans only (C02_ONLY=reset), every target height
+			continue
+		}
 		pad := 0
 		if f.Multi {
 			pad = 1 // the history then straddles the epoch boundary at height 6
 		}
 		e := mkEnv(f, pad, nil, false)
-		plans = append(plans, plan{e, "persist"}, plan{e, "reset"})
+		plans = append(plans, plan{e, "persist"})
+		if r.Thorough() || !f.SRIH {
+			plans = append(plans, plan{e, "reset"}) // quick: the reset does not look at StateRootInHeader
+		}
 		if f.Name == "single" || (r.Thorough() && f.Name == "multi") {
 			// GC needs height > MaxTraceableBlocks+1: longer preamble
 			g := mkEnv(f, 4, prune, true)
@@ -544,7 +562,7 @@ func TestCheck(t *testing.T) {
 			switch p.kind {
 			case "reset":
 				for to := uint32(1); to < uint32(total); to++ {
-					if !r.Thorough() && to < uint32(nPre)-1 {
+					if !r.Thorough() && to < uint32(nPre)-1 && os.Getenv("C02_RESETBATCH") == "" {
 						continue // quick: reset targets in and just below the history part
 					}
 					for _, gf := range []bool{false, true} {
